@@ -4,7 +4,7 @@ import PegVerif.Proofs.RefineAlt
 -/
 namespace PegVerif
 
-variable {P : Program} {cfg : Cfg} {env : CEnv} {G : Grammar} {inp : List Sym}
+variable [MInv] {P : Program} {cfg : Cfg} {env : CEnv} {G : Grammar} {inp : List Sym}
 
 /-- The repeated expression fails: leave the loop through `out`, restoring the iteration's entry. -/
 theorem goodLoop_stop {e p evs} (ih : Good P cfg env inp e p .fail evs) :
